@@ -24,11 +24,12 @@ class Gen:
     """Builds a definition text: some enums/flags, helper structs/unions, then `struct main`."""
 
     def __init__(self, rng: random.Random, *, bits=True, dynamic=True, unions=True, pointers=True, floats=True,
-                 leb=True, wchar=True, depth=2, max_fields=6, eof=True, null=True, void=False, static_only=False, aliases=True):
+                 leb=True, wchar=True, depth=2, max_fields=6, eof=True, null=True, void=False, static_only=False, aliases=True,
+                 dyn_unions=False, signed_flags=False, dup_flags=False):
         self.rng = rng
         self.o = dict(bits=bits, dynamic=dynamic and not static_only, unions=unions, pointers=pointers, floats=floats, leb=leb and not static_only,
                       wchar=wchar, depth=depth, max_fields=max_fields, eof=eof and not static_only, null=null and not static_only, void=void,
-                      aliases=aliases)
+                      aliases=aliases, dyn_unions=dyn_unions and not static_only, signed_flags=signed_flags, dup_flags=dup_flags)
         self.decls: list[str] = []
         self.enums: list[str] = []
         self.structs: list[tuple[str, bool]] = []   # (name, is_static)
@@ -95,7 +96,7 @@ class Gen:
             nm = self.fresh("f")
             last = i == nfields
             k = r.random()
-            dyn_ok = self.o["dynamic"] and not static_only and not in_union
+            dyn_ok = self.o["dynamic"] and not static_only and (not in_union or self.o["dyn_unions"])
             if self.o["bits"] and k < 0.14 and not in_union:
                 # a run of bit fields over one storage type
                 st = r.choice(["uint8", "uint16", "uint32", "uint64", "int8", "int16", "int32", "char"] + self.enums[:1])
@@ -128,7 +129,8 @@ class Gen:
                         names.append(nm)
                         continue
                 kw = "union" if (self.o["unions"] and r.random() < 0.3) else "struct"
-                sub, sub_static = self.field_lines(depth - 1, r.randrange(1, 4), kw == "union", static_only or in_union or kw == "union")
+                sub_static_only = static_only or in_union or (kw == "union" and not (self.o["dyn_unions"] and r.random() < 0.6))
+                sub, sub_static = self.field_lines(depth - 1, r.randrange(1, 4), kw == "union", sub_static_only)
                 body = " ".join(sub)
                 if r.random() < 0.3 and not in_union:
                     lines.append(f"{kw} {{ {body} }};")          # anonymous: members are forwarded
@@ -428,3 +430,80 @@ def read_result_term(r, T) -> str:
     if r[0] == "ok":
         return f"(Ok ({value_term(r[1], T)}, {cz(r[2])}))"
     return canon.cerr(r[1])
+
+
+# ------------------------------------------------------------------------------------------------
+# constructed values (type-directed): a python value the implementation accepts for a field of type t
+# ------------------------------------------------------------------------------------------------
+def int_range(t):
+    from dissect.cstruct.types import Int, Packed
+
+    bits = t.size * 8
+    signed = t.packchar.islower() if issubclass(t, Packed) else bool(t.signed) if issubclass(t, Int) else False
+    return (-(1 << (bits - 1)), (1 << (bits - 1)) - 1) if signed else (0, (1 << bits) - 1)
+
+
+def gen_py(t, rng: random.Random, overflow: list | None = None):
+    """overflow: a one-element list used as a flag; when [True] the first integer met gets an out-of-range value."""
+    from dissect.cstruct.expression import Expression
+    from dissect.cstruct.types import LEB128, BaseArray, Char, CharArray, Enum, Flag, Int, Packed, Pointer, Structure, Union, Void, Wchar, WcharArray
+
+    def pick_int(lo, hi):
+        if overflow and overflow[0]:
+            overflow[0] = False
+            return rng.choice([hi + 1, lo - 1, hi + rng.randrange(1, 1000), (hi + 1) * 2])
+        return rng.choice([lo, hi, 0, 1, rng.randrange(lo, hi + 1), rng.randrange(lo, hi + 1)])
+
+    if issubclass(t, (Enum, Flag)):
+        lo, hi = int_range(t.type) if t.type.size is not None else (0, 1 << 20)
+        if issubclass(t, Flag):
+            lo = 0
+        return t(pick_int(lo, hi))
+    if issubclass(t, Pointer):
+        lo, hi = int_range(t.cs.pointer)
+        return pick_int(lo, hi)
+    if issubclass(t, CharArray):
+        n = t.num_entries if isinstance(t.num_entries, int) else rng.randrange(0, 5)
+        return bytes(rng.randrange(1, 256) for _ in range(n))
+    if issubclass(t, WcharArray):
+        n = t.num_entries if isinstance(t.num_entries, int) else rng.randrange(0, 5)
+        # a fixed wchar[n] holds n UTF-16 units: BMP characters only (an astral character is two units)
+        return "".join(chr(rng.choice([65, 0x3A9, 0x4E2D, 0xFFFD, 1])) for _ in range(n))
+    if issubclass(t, BaseArray):
+        if isinstance(t.num_entries, Expression):
+            raise NotImplementedError("expression-sized arrays are not constructed directly")
+        n = t.num_entries if isinstance(t.num_entries, int) else rng.randrange(0, 4)
+        out = []
+        for _ in range(max(0, n)):
+            v = gen_py(t.type, rng, overflow)
+            if t.null_terminated:
+                while not bool(v) or v == 0:
+                    v = gen_py(t.type, rng, None)
+            out.append(v)
+        return out
+    if issubclass(t, Union):
+        raise NotImplementedError("unions are not constructed directly")
+    if issubclass(t, Structure):
+        obj = t()
+        for f in t.__fields__:
+            if f.bits:
+                v = rng.choice([0, (1 << f.bits) - 1, rng.randrange(0, 1 << f.bits)])
+                setattr(obj, f._name, f.type(v) if issubclass(f.type, (Enum, Flag)) else v)
+            else:
+                setattr(obj, f._name, gen_py(f.type, rng, overflow))
+        return obj
+    if issubclass(t, Void):
+        return t()
+    if issubclass(t, Char):
+        return bytes([rng.randrange(0, 256)])
+    if issubclass(t, Wchar):
+        return chr(rng.choice([0, 65, 0x3A9, 0xFFFF, 0x4E2D]))
+    if issubclass(t, LEB128):
+        return pick_int(-(1 << 70) if t.signed else 0, 1 << 70)
+    if issubclass(t, Packed) and issubclass(t, float):
+        eb, mb = canon.FLOAT_PARAMS[t.size]
+        bits = rng.choice([0, 1 << (8 * t.size - 1), rng.randrange(0, 1 << (8 * t.size))])
+        x = canon.float_of_bits(t.size, bits)
+        return 1.5 if math.isnan(x) else x
+    lo, hi = int_range(t)
+    return pick_int(lo, hi)
